@@ -167,6 +167,7 @@ fn inprogress(bytes: &[u8], m: &ModelGame) -> Result<(), Fail> {
 
 fn check(ctx: &Ctx, m: &ModelGame, label: &str, counting: bool) -> Result<(), Fail> {
 	let bytes = m.encode();
+	super::sibling_history(m, &bytes);
 	if counting {
 		ctx.eval();
 		let f = classify(ctx, m);
